@@ -420,6 +420,24 @@ fn prop_rt_inner(bytes: &[u8], explain: bool) -> String {
             if m1.hit_objects.iter_mut().any(computed_length_above_limit) {
                 tags.push("computed-length-above-parse-limit");
             }
+            // F25 / F26: the encoder writes a spinner's / hold note's END time `start + duration`; the decoder stores
+            // `max(end - start, 0)` resp. `max(start, end) - start`. In doubles (start + d) - start need not be d (F25: the
+            // duration comes back one ulp off), and start + d can lie above the parse limit although start and the original end
+            // did not (F26: the line is rejected when read back)
+            if m1.hit_objects.iter().any(|h| match &h.kind {
+                HitObjectKind::Spinner(sp) => ((h.start_time + sp.duration) - h.start_time).max(0.0).to_bits() != sp.duration.to_bits(),
+                HitObjectKind::Hold(ho) => (h.start_time.max(h.start_time + ho.duration) - h.start_time).to_bits() != ho.duration.to_bits(),
+                _ => false,
+            }) {
+                tags.push("end-time-rounding");
+            }
+            if m1.hit_objects.iter().any(|h| match &h.kind {
+                HitObjectKind::Spinner(sp) => h.start_time + sp.duration > 2147483647.0,
+                HitObjectKind::Hold(ho) => h.start_time + ho.duration > 2147483647.0,
+                _ => false,
+            }) {
+                tags.push("end-time-above-parse-limit");
+            }
             if m1.hit_objects.iter().any(|h| match &h.kind {
                 HitObjectKind::Slider(s) => s.node_samples.iter().flatten().any(|x| matches!(x.name, rosu_map::section::hit_objects::hit_samples::HitSampleInfoName::File(_))),
                 _ => false,
@@ -473,6 +491,32 @@ pub fn prop_lines(bytes: &[u8]) -> String {
                 let repaired = format!("osu file format v{}\n\n[HitObjects]\n{}\n", m1.format_version, g.join(","));
                 if rosu_map::from_str::<rosu_map::section::hit_objects::HitObjects>(&repaired).map_or(false, |h| h.hit_objects.len() == 1) {
                     return format!("FAIL encoder wrote a line its decoder rejects: {l:?} explained=computed-length-above-parse-limit");
+                }
+            }
+            // F26: a spinner / hold line whose END time field (start + duration, rounded) is above the decoder's limit of
+            // i32::MAX - and which is otherwise acceptable
+            let ty = f.get(3).and_then(|t| t.parse::<i32>().ok()).unwrap_or(0);
+            if p.sections.get(i) == Some(&7) && f.len() > 5 && ty & (8 | 128) != 0 && ty & 3 == 0 {
+                let end_field = f[5].split(':').next().unwrap_or("");
+                if end_field.parse::<f64>().map_or(false, |x| x > 2147483647.0 && x.is_finite()) {
+                    let mut g: Vec<String> = f.iter().map(|x| (*x).to_owned()).collect();
+                    g[5] = g[5].replacen(end_field, "2147483647", 1);
+                    let repaired = format!("osu file format v{}\n\n[General]\nMode: {}\n\n[HitObjects]\n{}\n", m1.format_version, mode_idx(m1.mode), g.join(","));
+                    if rosu_map::from_str::<rosu_map::section::hit_objects::HitObjects>(&repaired).map_or(false, |h| h.hit_objects.len() == 1) {
+                        return format!("FAIL encoder wrote a line its decoder rejects: {l:?} explained=end-time-above-parse-limit");
+                    }
+                }
+            }
+            // ... and the sample point the encoder collects at such an end time (or at a slider's end / node time) is written
+            // as a [TimingPoints] line with that time: the same finding
+            if p.sections.get(i) == Some(&5) && f.len() >= 2 && f[0].parse::<f64>().map_or(false, |x| x > 2147483647.0 && x.is_finite()) {
+                let mut g: Vec<String> = f.iter().map(|x| (*x).to_owned()).collect();
+                g[0] = "2147483647".to_owned();
+                let repaired = format!("osu file format v{}\n\n[General]\nMode: {}\n\n[TimingPoints]\n{}\n", m1.format_version, mode_idx(m1.mode), g.join(","));
+                let ok = rosu_map::from_str::<rosu_map::section::timing_points::TimingPoints>(&repaired)
+                    .map_or(false, |t| !t.control_points.sample_points.is_empty() || !t.control_points.timing_points.is_empty());
+                if ok {
+                    return format!("FAIL encoder wrote a line its decoder rejects: {l:?} explained=end-time-above-parse-limit");
                 }
             }
             return format!("FAIL encoder wrote a line its decoder rejects: {l:?}");
